@@ -119,6 +119,8 @@ pub enum VMux {
     Silent,
     /// ICMP only: forwarding is not configured (`Ok(None)`)
     NotConfigured,
+    /// ICMP only: every echo request is accepted, every k-th of them is answered by an echo reply
+    Echo(u32),
     Err(io::Error),
 }
 
@@ -236,6 +238,56 @@ impl<T: Send> datagram_pipe::Sink for SwallowSink<T> {
     }
 }
 
+struct EchoSource(tokio::sync::mpsc::UnboundedReceiver<forwarder::IcmpDatagram>);
+struct EchoSink(
+    tokio::sync::mpsc::UnboundedSender<forwarder::IcmpDatagram>,
+    u32,
+    u32,
+);
+
+#[async_trait]
+impl datagram_pipe::Source for EchoSource {
+    type Output = forwarder::IcmpDatagram;
+
+    fn id(&self) -> log_utils::IdChain<u64> {
+        log_utils::IdChain::empty()
+    }
+
+    async fn read(&mut self) -> io::Result<forwarder::IcmpDatagram> {
+        match self.0.recv().await {
+            Some(x) => Ok(x),
+            None => futures::future::pending().await,
+        }
+    }
+}
+
+#[async_trait]
+impl datagram_pipe::Sink for EchoSink {
+    type Input = downstream::IcmpDatagram;
+
+    async fn write(
+        &mut self,
+        d: downstream::IcmpDatagram,
+    ) -> io::Result<datagram_pipe::SendStatus> {
+        use crate::icmp_utils::{v4, v6, Message};
+        let reply = match &d.message {
+            Message::V4(v4::Message::Echo(e)) => Message::V4(v4::Message::EchoReply(e.clone())),
+            Message::V6(v6::Message::EchoRequest(e)) => {
+                Message::V6(v6::Message::EchoReply(e.clone()))
+            }
+            _ => return Ok(datagram_pipe::SendStatus::Dropped),
+        };
+        self.2 += 1;
+        if self.2 % self.1 == 0 {
+            let _ = self.0.send(forwarder::IcmpDatagram {
+                meta: forwarder::IcmpDatagramMeta { peer: d.meta.peer },
+                message: reply,
+            });
+        }
+        Ok(datagram_pipe::SendStatus::Sent)
+    }
+}
+
 impl Forwarder for Scripted {
     fn tcp_connector(&self) -> Box<dyn TcpConnector> {
         Box::new(ScriptedConnector(self.0.clone()))
@@ -271,6 +323,10 @@ impl Forwarder for Scripted {
                 Box::new(SilentSource::<forwarder::IcmpDatagram>(Default::default())),
                 Box::new(SwallowSink::<downstream::IcmpDatagram>(Default::default())),
             ))),
+            VMux::Echo(k) => {
+                let (tx, rx) = tokio::sync::mpsc::unbounded_channel();
+                Ok(Some((Box::new(EchoSource(rx)), Box::new(EchoSink(tx, k.max(1), 0)))))
+            }
         }
     }
 }
